@@ -32,7 +32,7 @@ def op(o, v):
 
 ATOMS = [None, True, False, 0, 1, 5, 2.5, 'a', 'a*', '?', '[ab]*', 'a[bc]', '[!b]b', '[[]', '5', '', {'x': 1}, {},
          op('=', 5), op('<', 5), op('<=', 5), op('>', 5), op('>=', 'a'), op('!=', 5),
-         {'operator': '<'}, op('<', None), op('=', None)]
+         {'operator': '<'}, op('<', None), op('=', None), op(['<', '>'], 5), op({'not': '<'}, 5)]
 RECORDED = [ABSENT, None, True, False, 0, 5, 7, 2.5, 'a', 'ab', 'ac', 'a[bc]', '[', '5', '', [1], ['a'], {'x': 1},
             {'py/type': 'vlib.values.Obj'}]
 
